@@ -1,13 +1,14 @@
 (* Fast solver with modules (model/FastMod.v):
    (a) conservativity: without modules it is model/Fast.v, operation by operation, and the translation of a
        network without control nodes is Fast.fast_of_net;
-   (b) C13: Flush makes a modular fast solver observationally equal to a fresh one, for every solver in which no
-       slot of neuronSignalsBeingProcessed below biasNeuronCount is both WRITTEN (target of a connection, output of
-       a module) and READ by a module ([flush_ok]).  Flush clears the array from biasNeuronCount on only, so
-       without that premise the statement is false (props/C13.v has the counterexample, confirmed on the code).
-       Relation: equal neuronSignals; neuronSignalsBeingProcessed equal on every index a module or the activation
-       loop may read ([readable]: from biasNeuronCount on, or never written); invariant: the never-written slots
-       hold 0 and the bias signals hold 1. *)
+   (b) C13: Flush makes a modular fast solver observationally equal to a fresh one, for every solver with
+       sensorNeuronCount <= totalNeuronCount (any connections, any modules, any indices).  Flush clears
+       neuronSignals from biasNeuronCount on and the WHOLE scratch array neuronSignalsBeingProcessed.  (Before the
+       repair of Flush the scratch array was cleared from biasNeuronCount on only; a module that writes a bias slot
+       which a module reads then made the statement false, and the theorem carried the premise [flush_ok] excluding
+       that: see props/C13.v.)
+       Relation: equal neuronSignals and equal neuronSignalsBeingProcessed (a module may read any slot of it);
+       invariant: array lengths and the bias signals 1. *)
 From NeatModel Require Import Res Net Fast NetMod FastMod SolverUtil FlushFast.
 From Coq Require Import Arith Lia.
 Open Scope nat_scope.
@@ -103,49 +104,11 @@ Variable fx : fmnet F.
 Notation fn := (fx_net fx).
 Hypothesis sensor_le_total : f_sensor fn <= f_total fn.
 
-Definition written (j : nat) : bool :=
-  existsb (fun c => fl_tgt c =? j) (f_conns fn) || existsb (fun m => existsb (Nat.eqb j) (fmd_outs m)) (fx_mods fx).
-Definition readable (j : nat) : bool := (f_bias fn <=? j) || negb (written j).
-Definition flush_ok : bool := forallb (fun m => forallb readable (fmd_ins m)) (fx_mods fx).
-
-Definition PR (j : nat) : Prop := readable j = true.
-
-(* [flush_ok] spelled out: a module never reads a slot below biasNeuronCount that a connection or a module writes *)
-Lemma flush_ok_iff :
-  flush_ok = true <->
-  forall m j, In m (fx_mods fx) -> In j (fmd_ins m) -> j < f_bias fn ->
-    (forall c, In c (f_conns fn) -> fl_tgt c <> j) /\ (forall m', In m' (fx_mods fx) -> ~ In j (fmd_outs m')).
-Proof.
-  unfold flush_ok. rewrite forallb_forall. split.
-  - intros H m j Hm Hj Hlt. specialize (H m Hm). rewrite forallb_forall in H. specialize (H j Hj).
-    unfold readable in H. destruct (f_bias fn <=? j) eqn:E; [apply Nat.leb_le in E; lia|]. simpl in H.
-    apply negb_true_iff in H. unfold written in H. apply orb_false_iff in H. destruct H as [H1 H2]. split.
-    + intros c Hc Et. assert (X : existsb (fun c => fl_tgt c =? j) (f_conns fn) = true).
-      { apply existsb_exists. exists c. split; [exact Hc|]. apply Nat.eqb_eq. exact Et. } congruence.
-    + intros m' Hm' Hin. assert (X : existsb (fun m => existsb (Nat.eqb j) (fmd_outs m)) (fx_mods fx) = true).
-      { apply existsb_exists. exists m'. split; [exact Hm'|]. apply existsb_exists. exists j. split; [exact Hin|apply Nat.eqb_refl]. }
-      congruence.
-  - intros H m Hm. rewrite forallb_forall. intros j Hj. unfold readable.
-    destruct (f_bias fn <=? j) eqn:E; [reflexivity|]. apply Nat.leb_gt in E. simpl. apply negb_true_iff.
-    destruct (H m j Hm Hj E) as [H1 H2]. unfold written. apply orb_false_iff. split.
-    + destruct (existsb (fun c => fl_tgt c =? j) (f_conns fn)) eqn:X; [|reflexivity]. exfalso.
-      apply existsb_exists in X. destruct X as (c & Hc & Et). apply Nat.eqb_eq in Et. exact (H1 c Hc Et).
-    + destruct (existsb (fun m0 => existsb (Nat.eqb j) (fmd_outs m0)) (fx_mods fx)) eqn:X; [|reflexivity]. exfalso.
-      apply existsb_exists in X. destruct X as (m' & Hm' & X). apply existsb_exists in X. destruct X as (j' & Hj' & Ee).
-      apply Nat.eqb_eq in Ee. subst j'. exact (H2 m' Hm' Hj').
-Qed.
+(* the relation: FlushFast's [rsig] on every index *)
+Definition PR (j : nat) : Prop := True.
 
 Lemma bias_le_sensor' : f_bias fn <= f_sensor fn.
 Proof. unfold f_sensor. lia. Qed.
-
-Lemma from_sensor_PR j : from_sensor F fn j -> PR j.
-Proof.
-  unfold from_sensor, PR, readable. intros H. pose proof bias_le_sensor'.
-  destruct (f_bias fn <=? j) eqn:E; [reflexivity|]. apply Nat.leb_gt in E. lia.
-Qed.
-
-Lemma neuron_range_PR i : In i (neuron_range fn) -> PR i.
-Proof. intros H. apply from_sensor_PR. unfold neuron_range in H. apply in_seq in H. unfold from_sensor. lia. Qed.
 
 (* ----- the module loop respects the relation ----- *)
 Lemma write_outs_rsig P tgts : forall outs s1 s2,
@@ -185,31 +148,24 @@ Proof.
   destruct r1; simpl; auto. apply IH; [exact Hr|]. intros m' j Hm Hj. apply (HP m' j); simpl; auto.
 Qed.
 
-Hypothesis FOK : flush_ok = true.
-
-Lemma mods_read_PR m j : In m (fx_mods fx) -> In j (fmd_ins m) -> PR j.
-Proof.
-  intros Hm Hj. unfold flush_ok in FOK. rewrite forallb_forall in FOK. specialize (FOK m Hm).
-  rewrite forallb_forall in FOK. exact (FOK j Hj).
-Qed.
-
 Lemma mforward_step_rsig d s1 s2 :
   rsig F NF PR s1 s2 ->
   rsig F NF PR (fst (mforward_step NF act mact fx d s1)) (fst (mforward_step NF act mact fx d s2)) /\
   snd (mforward_step NF act mact fx d s1) = snd (mforward_step NF act mact fx d s2).
 Proof.
   intros H. unfold mforward_step.
+  assert (TP : forall i, In i (neuron_range fn) -> PR i) by (intros; exact I).
   pose proof (fold_conn_step_rsig F NF PR (f_conns fn) s1 s2 H) as H1.
-  destruct (fs_activate_rsig F NF act fn PR (neuron_range fn) _ _ H1 neuron_range_PR) as [H2 E2].
+  destruct (fs_activate_rsig F NF act fn PR (neuron_range fn) _ _ H1 TP) as [H2 E2].
   destruct (fs_activate NF act fn (neuron_range fn) (fold_left (conn_step NF) (f_conns fn) s1)) as [a1 r1].
   destruct (fs_activate NF act fn (neuron_range fn) (fold_left (conn_step NF) (f_conns fn) s2)) as [a2 r2].
   simpl in H2, E2. subst r2. destruct r1; simpl; auto.
-  destruct (modules_loop_rsig PR (fx_mods fx) a1 a2 H2 mods_read_PR) as [H3 E3].
+  destruct (modules_loop_rsig PR (fx_mods fx) a1 a2 H2 (fun _ _ _ _ => I)) as [H3 E3].
   destruct (modules_loop NF mact (fx_mods fx) a1) as [b1 q1], (modules_loop NF mact (fx_mods fx) a2) as [b2 q2].
   simpl in H3, E3. subst q2. destruct q1; simpl; auto.
   destruct (fleb NF d (fzero NF)); simpl.
-  - split; [|reflexivity]. apply fs_commit_rsig; [exact H3|exact neuron_range_PR].
-  - destruct (fs_commit_delta_rsig F NF PR d (neuron_range fn) true b1 b2 H3 neuron_range_PR) as [H4 E4].
+  - split; [|reflexivity]. apply fs_commit_rsig; [exact H3|exact TP].
+  - destruct (fs_commit_delta_rsig F NF PR d (neuron_range fn) true b1 b2 H3 TP) as [H4 E4].
     destruct (fs_commit_delta NF d (neuron_range fn) true b1) as [c1 p1].
     destruct (fs_commit_delta NF d (neuron_range fn) true b2) as [c2 p2].
     simpl in *. subst p2. auto.
@@ -250,9 +206,9 @@ Qed.
 Lemma fast_flush_rsig P s1 s2 :
   rsig F NF P s1 s2 -> rsig F NF P (fst (fast_flush NF fn s1)) (fst (fast_flush NF fn s2)).
 Proof.
-  intros H. unfold fast_flush. simpl. generalize (seq (f_bias fn) (f_total fn - f_bias fn)). intros is.
-  revert s1 s2 H. induction is as [|i rest IH]; intros s1 s2 H; simpl; [exact H|].
-  apply IH. unfold flush_one. apply set_bp_rsig_in; [|reflexivity]. apply set_sig_rsig. exact H.
+  intros (H1 & H2 & H3).
+  destruct (fast_flush_fields F NF fn s1) as (A1 & A2 & _). destruct (fast_flush_fields F NF fn s2) as (B1 & B2 & _).
+  unfold rsig, bpF. rewrite A1, A2, B1, B2, H1, H2. repeat split; reflexivity.
 Qed.
 
 (* with at least one module RecursiveSteps is an error that touches nothing *)
@@ -285,106 +241,9 @@ Proof.
   subst r2. rewrite (mfast_outputs_respects PR a1 a2 Hr). f_equal. apply IH. exact Hr.
 Qed.
 
-(* ----- invariants of every reachable state ----- *)
-Definition low_clean (s : fstate) : Prop :=
-  forall j, j < f_bias fn -> written j = false -> bpF NF s j = fzero NF.
-Definition minv (s : fstate) : Prop := flens F s = full_lens F fn /\ bias_ok F NF fn s /\ low_clean s.
+(* ----- invariants of every reachable state: array lengths, bias signals ----- *)
+Definition minv (s : fstate) : Prop := flens F s = full_lens F fn /\ bias_ok F NF fn s.
 
-(* frames: what one forward step leaves alone *)
-Lemma bp_set_bp_other (s : fstate) i v j : i <> j -> bpF NF (set_bp s i v) j = bpF NF s j.
-Proof. intros H. unfold bpF, set_bp, getF. simpl. apply nth_upd_other. exact H. Qed.
-
-Lemma bp_fold_conn cs j : (forall c, In c cs -> fl_tgt c <> j) ->
-  forall s, bpF NF (fold_left (conn_step NF) cs s) j = bpF NF s j.
-Proof.
-  induction cs as [|c rest IH]; intros Hn s; simpl; [reflexivity|].
-  rewrite IH by (intros c' Hc'; apply Hn; simpl; auto).
-  unfold conn_step. apply bp_set_bp_other. apply Hn. simpl. auto.
-Qed.
-
-Lemma bp_fs_activate is j : (forall i, In i is -> i <> j) ->
-  forall s, bpF NF (fst (fs_activate NF act fn is s)) j = bpF NF s j.
-Proof.
-  induction is as [|i rest IH]; intros Hn s; simpl; [reflexivity|].
-  assert (Hi : i <> j) by (apply Hn; simpl; auto).
-  destruct (act _ _); simpl; try (apply bp_set_bp_other; exact Hi).
-  rewrite IH by (intros k Hk; apply Hn; simpl; auto). apply bp_set_bp_other. exact Hi.
-Qed.
-
-Lemma bp_fs_commit is j : (forall i, In i is -> i <> j) ->
-  forall s, bpF NF (fs_commit NF is s) j = bpF NF s j.
-Proof.
-  induction is as [|i rest IH]; intros Hn s; simpl; [reflexivity|].
-  rewrite IH by (intros k Hk; apply Hn; simpl; auto).
-  unfold commit_one. rewrite bp_set_bp_other by (apply Hn; simpl; auto). reflexivity.
-Qed.
-
-Lemma bp_fs_commit_delta d is j : (forall i, In i is -> i <> j) ->
-  forall r s, bpF NF (fst (fs_commit_delta NF d is r s)) j = bpF NF s j.
-Proof.
-  induction is as [|i rest IH]; intros Hn r s; simpl; [reflexivity|].
-  rewrite IH by (intros k Hk; apply Hn; simpl; auto).
-  unfold commit_one. rewrite bp_set_bp_other by (apply Hn; simpl; auto). reflexivity.
-Qed.
-
-Lemma bp_write_outs tgts j : ~ In j tgts ->
-  forall outs s, bpF NF (fst (write_outs s outs tgts)) j = bpF NF s j.
-Proof.
-  induction tgts as [|o tgts IH]; intros Hn outs s; simpl; [reflexivity|].
-  destruct outs as [|v outs]; [reflexivity|].
-  destruct (o <? length (fs_bp s)); [|reflexivity].
-  rewrite IH by (intros Hj; apply Hn; simpl; auto). apply bp_set_bp_other. intros E. apply Hn. simpl. auto.
-Qed.
-
-Lemma bp_modules_loop ms j : (forall m, In m ms -> ~ In j (fmd_outs m)) ->
-  forall s, bpF NF (fst (modules_loop NF mact ms s)) j = bpF NF s j.
-Proof.
-  induction ms as [|m rest IH]; intros Hn s; simpl; [reflexivity|].
-  assert (Hm : bpF NF (fst (module_step NF mact s m)) j = bpF NF s j).
-  { unfold module_step. destruct (forallb _ _); [|reflexivity].
-    destruct (mact _ _); simpl; try reflexivity. apply bp_write_outs. apply Hn. simpl. auto. }
-  destruct (module_step NF mact s m) as [a r]. simpl in Hm.
-  destruct r; simpl; try exact Hm. rewrite IH by (intros m' Hm'; apply Hn; simpl; auto). exact Hm.
-Qed.
-
-Lemma written_false_conn j : written j = false -> forall c, In c (f_conns fn) -> fl_tgt c <> j.
-Proof.
-  unfold written. intros H c Hc E. apply orb_false_iff in H. destruct H as [H _].
-  assert (X : existsb (fun c => fl_tgt c =? j) (f_conns fn) = true).
-  { apply existsb_exists. exists c. split; [exact Hc|]. apply Nat.eqb_eq. exact E. }
-  congruence.
-Qed.
-
-Lemma written_false_mod j : written j = false -> forall m, In m (fx_mods fx) -> ~ In j (fmd_outs m).
-Proof.
-  unfold written. intros H m Hm Hj. apply orb_false_iff in H. destruct H as [_ H].
-  assert (X : existsb (fun m => existsb (Nat.eqb j) (fmd_outs m)) (fx_mods fx) = true).
-  { apply existsb_exists. exists m. split; [exact Hm|]. apply existsb_exists. exists j. split; [exact Hj|]. apply Nat.eqb_refl. }
-  congruence.
-Qed.
-
-Lemma neuron_range_not_low i j : In i (neuron_range fn) -> j < f_bias fn -> i <> j.
-Proof. unfold neuron_range. intros H Hj. apply in_seq in H. pose proof bias_le_sensor'. lia. Qed.
-
-Lemma bp_mforward_step d s j : j < f_bias fn -> written j = false ->
-  bpF NF (fst (mforward_step NF act mact fx d s)) j = bpF NF s j.
-Proof.
-  intros Hj Hw. unfold mforward_step.
-  assert (Hn : forall i, In i (neuron_range fn) -> i <> j) by (intros i Hi; apply (neuron_range_not_low i j Hi Hj)).
-  pose proof (bp_fs_activate (neuron_range fn) j Hn (fold_left (conn_step NF) (f_conns fn) s)) as H1.
-  rewrite (bp_fold_conn (f_conns fn) j (written_false_conn j Hw)) in H1.
-  destruct (fs_activate NF act fn (neuron_range fn) (fold_left (conn_step NF) (f_conns fn) s)) as [a r].
-  simpl in H1. destruct r; simpl; try exact H1.
-  pose proof (bp_modules_loop (fx_mods fx) j (written_false_mod j Hw) a) as H2.
-  destruct (modules_loop NF mact (fx_mods fx) a) as [b q]. simpl in H2. rewrite H1 in H2.
-  destruct q; simpl; try exact H2.
-  destruct (fleb NF d (fzero NF)); simpl.
-  - rewrite bp_fs_commit by exact Hn. exact H2.
-  - pose proof (bp_fs_commit_delta d (neuron_range fn) j Hn true b) as H3.
-    destruct (fs_commit_delta NF d (neuron_range fn) true b) as [c p]. simpl in *. congruence.
-Qed.
-
-(* lengths and signals *)
 Lemma flens_write_outs tgts : forall outs s, flens F (fst (write_outs s outs tgts)) = flens F s.
 Proof.
   induction tgts as [|o tgts IH]; intros outs s; simpl; [reflexivity|].
@@ -458,9 +317,8 @@ Qed.
 
 Lemma minv_mforward_step d s : minv s -> minv (fst (mforward_step NF act mact fx d s)).
 Proof.
-  intros (L & B & C). split; [rewrite flens_mforward_step; exact L|]. split.
-  - intros j Hj. rewrite sig_mforward_step by (pose proof bias_le_sensor'; lia). apply B. exact Hj.
-  - intros j Hj Hw. rewrite bp_mforward_step by assumption. apply C; assumption.
+  intros (L & B). split; [rewrite flens_mforward_step; exact L|].
+  intros j Hj. rewrite sig_mforward_step by (pose proof bias_le_sensor'; lia). apply B. exact Hj.
 Qed.
 
 Lemma minv_mff_loop it : forall last s, minv s -> minv (fst (mff_loop NF act mact fx it last s)).
@@ -479,30 +337,21 @@ Qed.
 
 Lemma minv_fast_load x s : minv s -> minv (fst (fast_load NF fn x s)).
 Proof.
-  intros (L & B & C). split; [rewrite (flens_fast_load F NF); exact L|].
+  intros (L & B). split; [rewrite (flens_fast_load F NF); exact L|].
   unfold fast_load. destruct (length x =? f_in fn); simpl; [|auto].
-  generalize (seq 0 (f_in fn)). intros is. revert s L B C.
-  induction is as [|i rest IH]; intros s L B C; simpl; [auto|].
+  generalize (seq 0 (f_in fn)). intros is. revert s L B.
+  induction is as [|i rest IH]; intros s L B; simpl; [auto|].
   apply IH.
   - rewrite <- L. unfold set_sig, flens. simpl. now rewrite upd_length.
   - intros j Hj. unfold sigF, set_sig, getF. simpl. rewrite nth_upd_other by lia. apply B. exact Hj.
-  - exact C.
 Qed.
 
 Lemma minv_fast_flush s : minv s -> minv (fst (fast_flush NF fn s)).
 Proof.
-  intros (L & B & C). split; [rewrite (flens_fast_flush F NF); exact L|].
-  unfold fast_flush. simpl.
-  assert (G : forall is s, (forall i, In i is -> f_bias fn <= i) -> bias_ok F NF fn s -> low_clean s ->
-              bias_ok F NF fn (fold_left (flush_one NF) is s) /\ low_clean (fold_left (flush_one NF) is s)).
-  { induction is as [|i rest IH]; intros s0 Hi B0 C0; simpl; [auto|].
-    specialize (Hi i (or_introl eq_refl)) as Hii.
-    apply IH; [intros k Hk; apply Hi; simpl; auto| |].
-    - intros j Hj. unfold flush_one, sigF, set_bp, set_sig, getF. simpl.
-      rewrite nth_upd_other by lia. apply B0. exact Hj.
-    - intros j Hj Hw. unfold flush_one. rewrite bp_set_bp_other by lia.
-      unfold bpF, set_sig. simpl. apply C0; assumption. }
-  apply G; auto. intros i Hi. apply in_seq in Hi. lia.
+  intros (L & B). split; [rewrite (flens_fast_flush F NF); exact L|].
+  destruct (fast_flush_fields F NF fn s) as (A1 & _ & _).
+  intros j Hj. unfold sigF, getF. rewrite A1.
+  rewrite fold_upd_below by (intros i Hi E; apply in_seq in Hi; lia). apply B. exact Hj.
 Qed.
 
 Lemma minv_mfast_step s o : minv s -> minv (fst (mfast_step NF act mact fx s o)).
@@ -521,40 +370,26 @@ Proof.
 Qed.
 
 Lemma minv_init : minv (fast_init NF fn).
-Proof.
-  destruct (finv_init F NF fn sensor_le_total) as (L & B & _). split; [exact L|]. split; [exact B|].
-  intros j Hj _. unfold bpF, fast_init, getF. simpl. apply nth_repeat.
-Qed.
+Proof. destruct (finv_init F NF fn sensor_le_total) as (L & B & _). split; [exact L|exact B]. Qed.
 
-(* Flush brings every reachable state back to a state related to the initial one *)
+(* Flush brings every reachable state back to the initial one, as far as signals and scratch buffer go *)
 Lemma mfast_flush_init s : minv s -> rsig F NF PR (fst (fast_flush NF fn s)) (fast_init NF fn).
 Proof.
-  intros (L & B & C). pose proof bias_le_sensor' as HB.
+  intros (L & B). pose proof bias_le_sensor' as HB.
   unfold flens, full_lens in L. injection L as L1 L2 L3 L4 L5.
-  unfold fast_flush. simpl.
-  destruct (flush_fields F NF (seq (f_bias fn) (f_total fn - f_bias fn)) s) as (E1 & E2 & E3).
+  destruct (fast_flush_fields F NF fn s) as (E1 & E2 & _).
   assert (Hin : forall j, f_bias fn <= j < f_total fn -> In j (seq (f_bias fn) (f_total fn - f_bias fn))).
   { intros j Hj. apply in_seq. lia. }
-  unfold rsig, bpF. rewrite E1, E2. unfold fast_init. simpl.
+  unfold rsig, bpF. rewrite E1, E2, L2. unfold fast_init. simpl.
   repeat split.
-  - apply nth_ext with (d := fzero NF) (d' := fzero NF).
-    + rewrite fold_upd_length, app_length, !repeat_length. lia.
-    + intros j Hj. rewrite fold_upd_length in Hj.
-      destruct (Nat.lt_ge_cases j (f_bias fn)) as [Hlt|Hge].
-      * rewrite fold_upd_below by (intros i Hi E; apply in_seq in Hi; lia).
-        rewrite app_nth1 by (rewrite repeat_length; exact Hlt). rewrite nth_repeat_lt by exact Hlt. apply B. exact Hlt.
-      * rewrite (fold_upd_at (fun _ => fzero NF)); [|apply seq_NoDup|apply Hin; lia|lia].
-        rewrite app_nth2 by (rewrite repeat_length; exact Hge). now rewrite nth_repeat.
-  - rewrite fold_upd_length, repeat_length. exact L2.
-  - intros j Hj. unfold getF. rewrite nth_repeat.
-    destruct (Nat.lt_ge_cases j (f_bias fn)) as [Hlow|Hhigh].
-    + (* a slot below the bias count: readable only because nothing ever writes it *)
-      rewrite fold_upd_below by (intros i Hi E; apply in_seq in Hi; lia).
-      unfold PR, readable in Hj. destruct (f_bias fn <=? j) eqn:E; [apply Nat.leb_le in E; lia|].
-      simpl in Hj. apply negb_true_iff in Hj. exact (C j Hlow Hj).
-    + destruct (Nat.lt_ge_cases j (f_total fn)) as [Hlt|Hge].
-      * rewrite (fold_upd_at (fun _ => fzero NF)); [reflexivity|apply seq_NoDup|apply Hin; lia|lia].
-      * apply nth_overflow. rewrite fold_upd_length. lia.
+  apply nth_ext with (d := fzero NF) (d' := fzero NF).
+  - rewrite fold_upd_length, app_length, !repeat_length. lia.
+  - intros j Hj. rewrite fold_upd_length in Hj.
+    destruct (Nat.lt_ge_cases j (f_bias fn)) as [Hlt|Hge].
+    + rewrite fold_upd_below by (intros i Hi E; apply in_seq in Hi; lia).
+      rewrite app_nth1 by (rewrite repeat_length; exact Hlt). rewrite nth_repeat_lt by exact Hlt. apply B. exact Hlt.
+    + rewrite (fold_upd_at (fun _ => fzero NF)); [|apply seq_NoDup|apply Hin; lia|lia].
+      rewrite app_nth2 by (rewrite repeat_length; exact Hge). now rewrite nth_repeat.
 Qed.
 
 Theorem mfast_flush_fresh_mods (h ops : list (op F)) :
@@ -568,15 +403,15 @@ End Flush.
 
 (* C13 for the modular fast solver, with or without modules *)
 Theorem mfast_flush_fresh (fx : fmnet F) :
-  f_sensor (fx_net fx) <= f_total (fx_net fx) -> flush_ok fx = true ->
+  f_sensor (fx_net fx) <= f_total (fx_net fx) ->
   forall h ops : list (op F),
     mfast_trace NF act mact fx (fst (fast_flush NF (fx_net fx) (mfast_run NF act mact fx (mfast_init NF fx) h))) ops =
     mfast_trace NF act mact fx (mfast_init NF fx) ops.
 Proof.
-  intros HS HF h ops. destruct (fx_mods fx) as [|m ms] eqn:E.
+  intros HS h ops. destruct (fx_mods fx) as [|m ms] eqn:E.
   - rewrite (mfast_run_nil fx E), !(mfast_trace_nil fx E). unfold mfast_init.
     exact (fast_flush_fresh F NF act (fx_net fx) HS h ops).
-  - apply mfast_flush_fresh_mods; [exact HS|exact HF|]. rewrite E. discriminate.
+  - apply mfast_flush_fresh_mods; [exact HS|]. rewrite E. discriminate.
 Qed.
 
 End ModSpecFast.
